@@ -40,12 +40,25 @@ func prng(r PRng) string { return fmt.Sprintf("%d:%d-%d:%d", r.SL, r.SC, r.EL, r
 
 func c09(c *Ctx) {
 	c.Rep.TieObs = []string{"O-proxy: downstream request parameters and the reply of every overridden position-based method"}
-	c.Rep.Rule = "for each of 11 position-based methods (+ CodeLens, CodeAction) x every character position of two open template documents (mapped and unmapped) x four scripted downstream answers (range inside mapped text, in generated boilerplate, in another generated file, in a plain .go file); oracle from the real Compose tables: downstream is asked about the generated file at map(position); unmapped position => empty answer, no error, downstream not consulted; answers in generated files come back in template coordinates under the template URI, plain .go locations unchanged; distinct = distinct (method, document, position, answer shape)"
+	c.Rep.Rule = "for each of 11 position-based methods (+ CodeLens, CodeAction) x every character position of two open template documents (mapped and unmapped) x seven scripted downstream answers (range inside mapped text, across two mapped segments, from mapped into unmapped text, in generated boilerplate, in another generated file, at the very first character of a generated file's template (0:0), in a plain .go file); oracle from the real Compose tables: downstream is asked about the generated file at map(position); unmapped position => empty answer, no error, downstream not consulted; answers in generated files come back in template coordinates under the template URI, plain .go locations unchanged; distinct = distinct (method, document, position, answer shape)"
 	docA := "package x\n\n@goht A(s string, n int) {\n\t%p= s\n\t%i= %d n\n\t%a{href: #{s}, n ? #{n > 1}} t #{s} u\n\t- if n > 2\n\t\t= @render B(s)\n}\n"
 	docB := "package x\n\n@goht B(s string) {\n\t.c[s]= s\n}\n"
-	uA, uB, uGo := "file:///w/a.goht", "file:///w/b.goht", "file:///w/plain.go"
-	real := c.composeReal([]string{docA, docB})
-	tA, tB := tablesOf(real[docA]), tablesOf(real[docB])
+	// a template without a package clause whose first line is Go code: its very first character (0:0) is mapped text
+	docC := "var greeting = \"hi\"\n\n@goht C() {\n\t%p= greeting\n}\n"
+	uA, uB, uGo, uC := "file:///w/a.goht", "file:///w/b.goht", "file:///w/plain.go", "file:///w/c.goht"
+	real := c.composeReal([]string{docA, docB, docC})
+	tA, tB, tC := tablesOf(real[docA]), tablesOf(real[docB]), tablesOf(real[docC])
+	// the generated range that is the copy of the first three characters of docC
+	var origin PRng
+	for k, v := range tC.t2s {
+		if v == [2]int{0, 0} {
+			origin = PRng{uint32(k[0]), uint32(k[1]), uint32(k[0]), uint32(k[1] + 3)}
+		}
+	}
+	if real[docC].Err != "-" || origin == (PRng{}) {
+		c.mismatch("setup", docC, real[docC].Err, "accepted, with its first character mapped", true)
+		return
+	}
 	if real[docA].Err != "-" || real[docB].Err != "-" || len(tA.s2t) == 0 {
 		c.mismatch("setup", docA, real[docA].Err+" / "+real[docB].Err, "both documents accepted", true)
 		return
@@ -117,6 +130,7 @@ func c09(c *Ctx) {
 		{"plain-go-file", PLoc{uGo, plain}},
 		{"mapped-same-file/two-segments", PLoc{uA + ".go", twoSeg}},
 		{"mapped-same-file/into-unmapped-text", PLoc{uA + ".go", intoBoiler}},
+		{"origin-of-another-generated-file", PLoc{uC + ".go", origin}},
 	}
 	lines := strings.Split(docA, "\n")
 	type reqInfo struct {
@@ -125,7 +139,8 @@ func c09(c *Ctx) {
 		col    int
 		ans    int
 	}
-	ops := []POp{{Op: "open", URI: uA, Text: docA, Version: 1}, {Op: "open", URI: uB, Text: docB, Version: 1}}
+	ops := []POp{{Op: "open", URI: uA, Text: docA, Version: 1}, {Op: "open", URI: uB, Text: docB, Version: 1}, {Op: "open", URI: uC, Text: docC, Version: 1}}
+	const nOpen = 3
 	var infos []reqInfo
 	step := c.N(3, 1)
 	for _, m := range posMethods {
@@ -203,9 +218,9 @@ func c09(c *Ctx) {
 		}
 	}
 	for i, info := range infos {
-		evs := log[i+2]
+		evs := log[i+nOpen]
 		if i >= nMain {
-			evs = log[i+4] // the multi-item completion and the change op precede the second round
+			evs = log[i+nOpen+2] // the multi-item completion and the change op precede the second round
 			tA = tA2
 		}
 		c.Rep.OracleCases++
@@ -272,6 +287,8 @@ func c09(c *Ctx) {
 			wantURI = uA // no template coordinates exist for boilerplate: only the URI is judged
 		case "other-generated-file":
 			wantURI, wantR = uB, tB.mapRangeBack(ans.loc.R)
+		case "origin-of-another-generated-file":
+			wantURI, wantR = uC, tC.mapRangeBack(ans.loc.R)
 		}
 		switch info.method {
 		case "Definition", "TypeDefinition", "Implementation", "References":
